@@ -13,7 +13,7 @@ EXTENDS Sanitize
 CONSTANT MaxSteps
 VARIABLES cur, hist
 hvars == <<vars, cur, hist>>
-HInit == /\ kind = "hist" /\ nameIx = 0 /\ cfgKind = "-" /\ route = "-" /\ sink = "-" /\ sanitize = TRUE /\ sens = FALSE /\ omitted = FALSE /\ pos = "-" /\ sep = "-"
+HInit == /\ kind = "hist" /\ nameIx = 0 /\ cfgKind = "-" /\ route = "-" /\ sink = "-" /\ sanitize = TRUE /\ sens = FALSE /\ omitted = FALSE /\ pos = "-" /\ sep = "-" /\ shape = "-" /\ fate = "-"
          /\ cur = Cfg("default") /\ hist = <<>>
 Configure(op) == /\ Len(hist) < MaxSteps
                  /\ cur' = ApplyOp(cur, op)
